@@ -17,7 +17,10 @@ KNOWN_WIPE = {"kind": "double-crash-state-wipe"}
 KNOWN_FAST = {"kind": "fastvote-before-cert"}
 KNOWN_STALECERT = {"kind": "panic-stale-cert-bundle"}
 KNOWN_TRIM = {"kind": "trim-drops-staged-payload"}
-SCENARIOS = ["doublecommit", "fastcommit", "latepayload", "stalecert", "trimdrop"]   # harness/agreement/zz_verif_netdrive_scen_test.go
+SCENARIOS = ["doublecommit", "fastcommit", "latepayload", "stalecert", "trimdrop"]
+# recrash-<P>-<soft|next>-<k>-<x>: k honest nodes crash + restore in recovery period P after that vote, the period's votes lost
+RECRASH_QUICK = ["recrash-1-soft-3-1", "recrash-2-next-3-1"]
+RECRASH_ALL = ["recrash-%d-%s-%d-%d" % (P, a, k, x) for P in (1, 2) for a in ("soft", "next") for k in (3, 2) for x in (1, 0)]   # harness/agreement/zz_verif_netdrive_scen_test.go
 
 
 # ----------------------------------------------------------------------------- analysis
@@ -194,7 +197,7 @@ def run(ctx, replay=None):
 
     # ---- 1b. directed scenarios, executed LIVE (they pick messages by sender / step / value, so they adapt to what the
     #          current code sends; a recorded schedule only replays what the unchanged code sent)
-    for sc in SCENARIOS:
+    for sc in SCENARIOS + ctx.budget(RECRASH_QUICK, RECRASH_ALL):
         sh = netdrive.run_shard(ctx, exe, "scenario-" + sc, {"VERIF_ND_SCENARIO": sc}, tmo, test="TestVerifNetDriveScenario")
         analyse(ctx, sh, stats, corpus_name="scenario:" + sc)
 
